@@ -179,3 +179,58 @@ package stream
 //@   loop 0 unroll 3
 //@   ensures  no-matching-part-discarded: forall k :: 0 <= k && k < len(s.parts) && partMeets(s.parts[k].p, minTimestamp, maxTimestamp) ==> (exists j :: len(dst) <= j && j < len(result0) && result0[j] == s.parts[k].p)
 //
+//
+//@ section C04
+//
+// loadSnapshot, the manifest lookup (fragment contract: this loop only, from an arbitrary state). A part directory found on
+// disk is treated as an orphan - and deleted - only when NO entry of the manifest names it; the manifest is not assumed
+// to be sorted (a merge racing a flush publishes ids out of order).
+//@ func tsTable.loadSnapshot#manifest-lookup
+//@   mode int
+//@   opt fragment writes find
+//@   requires !find
+//@   ensures  orphan-only-if-unlisted: !find ==> (forall k :: 0 <= k && k < len(parts) ==> parts[k] != id)
+//@   ensures  found-only-if-listed: find ==> (exists k :: 0 <= k && k < len(parts) && parts[k] == id)
+//@   loop 0 invariant !find && (forall k :: 0 <= k && k < range_i ==> parts[k] != id)
+//
+//@ section C03
+//
+// getPartsToMerge, the loop that builds the set of part ids the merge will remove from the snapshot (fragment contract: this
+// loop only, from an arbitrary state with an empty set). The set is exactly the ids of the parts the policy chose: a part
+// that is not merged into the output must never be listed, or its data vanishes from queries when the merged part is introduced.
+//@ func tsTable.getPartsToMerge#removed-set
+//@   mode int
+//@   opt fragment writes toBeMerged
+//@   requires toBeMerged != nil && (forall id uint64 :: !haskey(toBeMerged, id))
+//@   requires forall k :: 0 <= k && k < len(dst) ==> dst[k] != nil && dst[k].p != nil
+//@   ensures  every-chosen-part-is-listed: forall k :: 0 <= k && k < len(dst) ==> haskey(toBeMerged, dst[k].p.partMetadata.ID)
+//@   ensures  only-chosen-parts-are-listed: forall id uint64 :: haskey(toBeMerged, id) ==> (exists k :: 0 <= k && k < len(dst) && dst[k].p.partMetadata.ID == id)
+//@   loop 0 invariant toBeMerged != nil && (forall k :: 0 <= k && k < range_i ==> haskey(toBeMerged, dst[k].p.partMetadata.ID))
+//@   loop 0 invariant forall id uint64 :: haskey(toBeMerged, id) ==> (exists k :: 0 <= k && k < range_i && dst[k].p.partMetadata.ID == id)
+//
+// renameConflictTags: in EVERY tag family that has conflicting tags, each conflicting tag gets its typed name and every
+// other tag keeps its name (tag families without conflicts are skipped, not a reason to stop) - so merging parts whose tag
+// types disagree renames and never mixes or drops a tag column.
+//@ decl func typedName(name string, vt byte) string
+//@ func encodeTypedTag
+//@   assumed name + separator + type suffix; only "a function of (name, type)" is used
+//@   pure
+//@   ensures result == typedName(name, byte(vt))
+//@ spec func conflicting(cm map[string]map[string]struct{}, fam string, col string) bool = len(cm) != 0 && haskey(cm, fam) && cm[fam] != nil && haskey(cm[fam], col)
+//@ func renameConflictTags
+//@   mode int
+//@   requires b != nil
+//@   requires distinct-tag-arrays: forall p, q :: 0 <= p && p < q && q < len(b.tagFamilies) ==> !sameobj(b.tagFamilies[p].tags, b.tagFamilies[q].tags)
+//@   modifies allof(tag.name)
+//@   ensures  renamed-exactly-the-conflicting: forall i, j :: 0 <= i && i < len(b.tagFamilies) && 0 <= j && j < len(b.tagFamilies[i].tags) ==>
+//@     b.tagFamilies[i].tags[j].name == ite(conflicting(conflictTags, b.tagFamilies[i].name, old(b.tagFamilies[i].tags[j].name)), typedName(old(b.tagFamilies[i].tags[j].name), byte(b.tagFamilies[i].tags[j].valueType)), old(b.tagFamilies[i].tags[j].name))
+//@   loop 0 invariant done: forall p, j :: 0 <= p && p < range_i && 0 <= j && j < len(b.tagFamilies[p].tags) ==>
+//@     b.tagFamilies[p].tags[j].name == ite(conflicting(conflictTags, b.tagFamilies[p].name, old(b.tagFamilies[p].tags[j].name)), typedName(old(b.tagFamilies[p].tags[j].name), byte(b.tagFamilies[p].tags[j].valueType)), old(b.tagFamilies[p].tags[j].name))
+//@   loop 0 invariant todo: forall p, j :: range_i <= p && p < len(b.tagFamilies) && 0 <= j && j < len(b.tagFamilies[p].tags) ==> b.tagFamilies[p].tags[j].name == old(b.tagFamilies[p].tags[j].name)
+//@   loop 1 invariant samehdr(tt, b.tagFamilies[i].tags) && tags != nil && tags == conflictTags[b.tagFamilies[i].name] && len(conflictTags) != 0 && haskey(conflictTags, b.tagFamilies[i].name)
+//@   loop 1 invariant done: forall p, j :: 0 <= p && p < i && 0 <= j && j < len(b.tagFamilies[p].tags) ==>
+//@     b.tagFamilies[p].tags[j].name == ite(conflicting(conflictTags, b.tagFamilies[p].name, old(b.tagFamilies[p].tags[j].name)), typedName(old(b.tagFamilies[p].tags[j].name), byte(b.tagFamilies[p].tags[j].valueType)), old(b.tagFamilies[p].tags[j].name))
+//@   loop 1 invariant todo: forall p, j :: i < p && p < len(b.tagFamilies) && 0 <= j && j < len(b.tagFamilies[p].tags) ==> b.tagFamilies[p].tags[j].name == old(b.tagFamilies[p].tags[j].name)
+//@   loop 1 invariant row-done: forall j :: 0 <= j && j < range_i ==>
+//@     tt[j].name == ite(haskey(tags, old(b.tagFamilies[i].tags[j].name)), typedName(old(b.tagFamilies[i].tags[j].name), byte(tt[j].valueType)), old(b.tagFamilies[i].tags[j].name))
+//@   loop 1 invariant row-todo: forall j :: range_i <= j && j < len(tt) ==> tt[j].name == old(b.tagFamilies[i].tags[j].name)
